@@ -8,7 +8,7 @@ pub struct ItemId(pub usize);
 #[derive(Clone, Copy, PartialEq, Eq, Structural)]
 pub struct TypeId(pub ItemId);
 #[verifier::external_body] pub struct FunctionSig { _p: core::marker::PhantomData<()> }
-pub enum TypeKind { Function(FunctionSig), Array(TypeId, usize), Other }
+pub enum TypeKind { Function(FunctionSig), Array(TypeId, usize), Pointer(TypeId), Other }
 #[verifier::external_body] pub struct Type { _p: core::marker::PhantomData<()> }
 impl Type {
     pub uninterp spec fn s_kind(&self) -> TypeKind;
